@@ -36,6 +36,7 @@ def registry : List Obj := [
   pureObj pureAddMomentum,
   pureObj pureCodec,
   pureObj pureWallet,
+  walletSeqObj,
   pureObj pureGenesis,
   pureObj VerifyD.pureVerify,
   pureObj pureProto,
